@@ -31,6 +31,56 @@ func c20Trees(marker string) []c20Tree {
 	}
 }
 
+// c20BigTree: main.ecal imports a library of exactly `size` bytes whose only
+// definition is at its very end, so that any truncation or corruption of the
+// packed copy changes the program's exit code.
+func c20BigTree(pad string, size int) c20Tree {
+	tail := "\nfunc answer() {\n  return 42\n}\n"
+	n := size - len(tail) - 2
+	if n < 0 {
+		n = 0
+	}
+	body := make([]byte, n)
+	x := uint32(12345)
+	for i := range body {
+		switch {
+		case i%80 == 79:
+			body[i] = '\n'
+		case i%80 == 0:
+			body[i] = '#'
+		case pad == "noise":
+			x = x*1664525 + 1013904223 // fixed LCG: incompressible, deterministic
+			body[i] = 'A' + byte((x>>24)%58)
+		default:
+			body[i] = 'c'
+		}
+	}
+	lib := "#" + string(body) + "\n" + tail
+	return c20Tree{fmt.Sprintf("big-%s-%d", pad, size), map[string]string{"main.ecal": "import \"lib/lib.ecal\" as l\nl.answer()", "lib/lib.ecal": lib}, "main.ecal", 42}
+}
+
+var c20BigSizes = func() []int {
+	var out []int
+	for k := 9; k <= 17; k++ {
+		out = append(out, 1<<k-1, 1<<k, 1<<k+1)
+	}
+	return append(out, 100, 40000, 100000, 200000)
+}()
+
+func c20TreeByName(marker, name string) (c20Tree, bool) {
+	for _, t := range c20Trees(marker) {
+		if t.name == name {
+			return t, true
+		}
+	}
+	var pad string
+	var size int
+	if n, _ := fmt.Sscanf(strings.Replace(name, "-", " ", -1), "big %s %d", &pad, &size); n == 2 {
+		return c20BigTree(pad, size), true
+	}
+	return c20Tree{}, false
+}
+
 type c20Filler struct {
 	name string
 	gen  func(L int, marker string) []byte
@@ -188,6 +238,35 @@ func c20One(c *Ctx, en *c20Env, t c20Tree, root string, fl c20Filler, L int) {
 }
 
 func init() {
+	register(&Part{Prop: "C20", Name: "file-size-sweep", Quick: 4, Thor: 4,
+		Desc: "projects whose imported library has exactly s bytes for every s in {2^k-1, 2^k, 2^k+1 : k = 9..17} + {100, 40000, 100000, 200000} (buffer, inflate-window and read-size boundaries) x {compressible, incompressible} content, with the library's only definition at its very end; packed with the real CLIPacker.Pack, unpacked byte-for-byte and started through RunPackedBinary",
+		Rule: "every size of the list x 2 contents x 2 source-binary lengths; non-trivial = the packed file was well-formed and was started",
+		Run: func(c *Ctx) {
+			en, err := c20Setup()
+			if err != nil {
+				c.res.HarnessErr = err.Error()
+				return
+			}
+			defer os.RemoveAll(en.dir)
+			for _, pad := range []string{"plain", "noise"} {
+				for _, size := range c20BigSizes {
+					for _, L := range []int{100, 4109} {
+						if !c.Mine() {
+							continue
+						}
+						t := c20BigTree(pad, size)
+						root, err := en.writeTree(t)
+						if err != nil {
+							c.res.HarnessErr = err.Error()
+							return
+						}
+						c20One(c, en, t, root, c20Fillers[0], L)
+					}
+				}
+			}
+			c.Sample("tree=big-noise-32769 filler=all-x length=100")
+		},
+		Replay: func(c *Ctx, in string) { c20Replay(c, in) }})
 	register(&Part{Prop: "C20", Name: "length-sweep", Quick: 16, Thor: 16,
 		Desc: "source binaries of every length in [0, 2 scan periods] (thorough 3 periods) x 5 filler patterns (no #, all #, # at block ends, partial markers straddling block boundaries, trailing newline) x 3 project trees (single file; nested directories with an imported library; empty file and a binary file containing the marker), packed with the real CLIPacker.Pack and started in-process through RunPackedBinary",
 		Rule: "every length of the sweep is enumerated (period = 4096 + len(marker) + 11 bytes of the scanner's buffer geometry); non-trivial = the packed file was well-formed and was started",
@@ -228,22 +307,24 @@ func init() {
 			c.Extra("scan_period_bytes", period)
 			c.Sample("tree=nested-import filler=all-x length=4109")
 		},
-		Replay: func(c *Ctx, in string) {
-			en, err := c20Setup()
-			if err != nil {
-				return
+		Replay: func(c *Ctx, in string) { c20Replay(c, in) }})
+}
+
+func c20Replay(c *Ctx, in string) {
+	en, err := c20Setup()
+	if err != nil {
+		return
+	}
+	defer os.RemoveAll(en.dir)
+	var tn, fn string
+	var L int
+	fmt.Sscanf(strings.NewReplacer("tree=", "", "filler=", "", "length=", "").Replace(in), "%s %s %d", &tn, &fn, &L)
+	if t, ok := c20TreeByName(en.marker, tn); ok {
+		for _, fl := range c20Fillers {
+			if fl.name == fn {
+				root, _ := en.writeTree(t)
+				c20One(c, en, t, root, fl, L)
 			}
-			defer os.RemoveAll(en.dir)
-			var tn, fn string
-			var L int
-			fmt.Sscanf(strings.NewReplacer("tree=", "", "filler=", "", "length=", "").Replace(in), "%s %s %d", &tn, &fn, &L)
-			for _, t := range c20Trees(en.marker) {
-				for _, fl := range c20Fillers {
-					if t.name == tn && fl.name == fn {
-						root, _ := en.writeTree(t)
-						c20One(c, en, t, root, fl, L)
-					}
-				}
-			}
-		}})
+		}
+	}
 }
